@@ -241,9 +241,10 @@ MANIFEST = {
             "units): the loop over the MODEL of the ADD-based oracle (compile, boundary diagrams, restrict, sum, "
             "modelcount) is the Shapley value; C02_add_validated_is_shapley -- the same for ANY conjunctive provenance "
             "(rows needing several units, any unit order) whenever the boolean valid_compiled accepts the compiled "
-            "diagram and row locations; C02_sorted_definition_agrees. PARTIAL in one link only: compile()'s leaf/factor "
-            "construction is not modelled -- its output for every instance is dumped and valid_compiled is evaluated "
-            "on it inside Coq (translation validation backed by the theorem). Tied to the code at API level on every run: "
+            "diagram and row locations; C02_add_compile_is_shapley -- END TO END through the MODEL of compile() for every "
+            "admissible component structure; C02_sorted_definition_agrees. Left to correspondence: that compile()'s "
+            "graph step delivers an admissible structure and that the implementation builds the modelled diagram "
+            "(C09's check evaluates both inside Coq on every instance; here the dumped diagram must pass valid_compiled). Tied to the code at API level on every run: "
             "ShapleyImportance('neighbor', nn_k=K) on conjunctive provenance hypergraphs vs the loop model and vs the "
             "Shapley value by definition of the KNN game (rank-based and sort-based definitions), inside Coq; and vs "
             "'bruteforce' over KNeighborsClassifier(K).",
